@@ -32,8 +32,8 @@ fn("engine/default.py::DefaultDialect._do_ping_w_event@ghost", abstract=True, cl
    types={"dbapi_connection": "DBConn"}, modifies=["dbapi_connection._g_dead"],
    ensures=["implies(result, dbapi_connection._g_dead == old(dbapi_connection._g_dead))", "implies(not result, dbapi_connection._g_dead)"],
    may_raise={"BaseException": "True"}, notes="pre-ping: True / False (ghost: the connection is marked dead) / raises")
-fn("pool/base.py::Pool._invalidate@nocheckin", abstract=True, cls="PoolC", params=["self", "connection", "exception", "_checkin"], returns="none",
-   modifies=["self._invalidate_time"], notes="Pool._invalidate(.., _checkin=False): moves the pool-wide invalidation time forward only")
+fn("pool/base.py::Pool._invalidate@nocheckin", abstract=True, cls="PoolC", params=["self", "connection", "exception", "_checkin"], returns="none", types={"_checkin": "bool"},
+   requires=["not _checkin"], modifies=["self._invalidate_time"], notes="Pool._invalidate(.., _checkin=False): moves the pool-wide invalidation time forward only")
 fn("pool/base.py::_ConnectionRecord.checkout@new", abstract=True, params=["cls_", "pool"], types={"pool": "PoolC"}, returns="Fairy", fresh_result=True,
    modifies=[], may_raise={"BaseException": "True"},
    ensures=["result._connection_record is not None and fresh(result._connection_record)", "result._connection_record.__pool is pool",
@@ -51,7 +51,7 @@ fn(F + "_checkout", props=["C26"], types=T, returns="Fairy", consts={"exc.Discon
             "weakref.ref": "havoc:v", "pool.logger.debug": "noop", "pool.logger.info": "noop",
             "pool.dispatch.checkout": dict(fn="pool/events.py::PoolEvents.checkout@listener", recv="pool.dispatch", args=["$0", "$1", "$2"]),
             "pool._dialect._do_ping_w_event": dict(fn="engine/default.py::DefaultDialect._do_ping_w_event@ghost", recv="pool._dialect", args=["$0"]),
-            "pool._invalidate": dict(fn="pool/base.py::Pool._invalidate@nocheckin", recv="pool", args=["$0", "$1", "False"])},
+            "pool._invalidate": dict(fn="pool/base.py::Pool._invalidate@nocheckin", recv="pool", args=["$0", "$1", "$kw:_checkin"])},
    requires=["fairy is None", "threadconns is None"],
    invariant={0: ["fairy is not None and fairy._connection_record is not None and fairy._connection_record.__pool is pool",
                   "fairy.dbapi_connection is fairy._connection_record.dbapi_connection and fairy.dbapi_connection is not None and not fairy.dbapi_connection.closed",
